@@ -89,7 +89,7 @@ def menu():
     m.append(("sleeptime", 3, [(v, I, struct.pack(">I", v)) for v in (0, 1, 0xFFFFFFFF)] + [("absent", None, None)]))
     m.append(("jitter", 5, [(v, Sh, struct.pack(">H", v)) for v in (0, 37, 99)]))
     m.append(("useragent", 9, [(t.decode("latin-1"), Pt, cstr(t, 128)) for t in TEXTS[1:]]))
-    m.append(("domains", 8, [(t, Pt, cstr(t.encode(), 256)) for t in ("h,/a", "h1,/a,h2,/b", "h1,/a,h2,/a", 'h,/a"b', "h,/a\\", "h,/a b,h,/c")]))
+    m.append(("domains", 8, [(t, Pt, cstr(t.encode(), 256)) for t in ("h,/a", "h1,/a,h2,/b", "h1,/a,h2,/a", 'h,/a"b', "h,/a\\", "h,/a b,h,/c", "cdn.example.com,,www.example.com,/updates", "h1,/a,h2,", "h1,/a,,/b")]))
     m.append(("submituri", 10, [(t.decode("latin-1"), Pt, cstr(t, 64)) for t in (b"/s", b'/s"x', b"/s\\", b"/s;#")]))
     m.append(("verb_get", 26, [(t, Pt, cstr(t.encode(), 16)) for t in ("POST", "PUT", 'G"T')]))
     m.append(("verb_post", 27, [(t, Pt, cstr(t.encode(), 16)) for t in ("GET", "X\\")]))
